@@ -58,6 +58,12 @@ CHECKS = {
   text="7 (thorough 10) fee-market fixtures (base fee disabled/7/1e9; min gas price 0/below/equal/fractional; multiplier 0/0.5/1) x {legacy, access-list, dynamic-fee, two-message eth, Cosmos, Cosmos+DynamicFee option} x gas limits x prices around the floor (floor-1, floor, floor+1, base-1, ...) x tips x {transfer, refund-earning SSTORE clear, revert, out of gas}: acceptance implies fee >= ceil(mgp x gasLimit) and feeCap >= baseFee; for executed eth txs gasUsed = max(EVM gas after refunds, floor(mult x limit)) <= limit, sender pays exactly value + gasUsed x effectivePrice, the collector receives exactly that, response GasUsed/GasWanted agree.",
   note="EVM gas of the four fixed programs is computed by hand from the yellow-paper schedule. Declared fee is what the acceptance clause is checked against (deducted < floor on the Cosmos route is an observation). DeliverTx only.",
   design="DESIGN.md §3 C07"),
+ "C16": dict(
+  technique="explicit-state exploration of base states (DFS, digest dedup) with an exhaustive fork differential in every state: precompile call vs native message, both through the real DeliverTx, all persistent stores diffed",
+  engine="E1",
+  text="Base states = every sequence <= 2 (thorough 3) of native delegate / undelegate / redelegate / set-withdraw-address / block boundary (rewards accrue through coinomics). In each state ~130 precompile calls (staking delegate, undelegate, redelegate, cancelUnbondingDelegation; distribution setWithdrawAddress, withdrawDelegatorRewards, claimRewards; validators valid/unknown/malformed; amounts 0, 1, mid, all, all+1, 2^256-1; creation heights) are executed by the owner as an Ethereum transaction on one branch and as the corresponding Cosmos transaction on another: success/failure must agree and every persistent store must be identical (EVM-side artefacts whitelisted: precompile account record, account-number counter, signer sequence). Read-only staking methods and the bank methods are compared with the modules' own state through the public eth_call entry point.",
+  note="Gas price 0. ICS-20, createValidator and withdrawValidatorCommission legs are not in the alphabet. Query outputs are checked for containing the module's figures.",
+  design="DESIGN.md §3 C16"),
 }
 
 PENDING = {}
